@@ -7,8 +7,8 @@ for l in open('/verif/seeded/MATRIX.txt'):
     if len(p) >= 3:
         mat.setdefault(p[0], []).append((p[1], p[2], ' '.join(p[3:])))
 out = ["<!-- SEC10-BEGIN -->\n## 10. Seeded changes (from fresh sub-agents) and which checks catch them\n\n"]
-out.append('''Five rounds of fresh sub-agents (rounds 4 and 5 with requests for changes that need long windows, long streams,
-rare secondary parameters, tiny or huge units, or a narrowed counter) were each given only the JSON record of one property and a scratch
+out.append('''Six rounds of fresh sub-agents (rounds 4 to 6 with requests for changes that need long windows, long streams,
+rare secondary parameters, tiny or huge units, a narrowed counter, f32 only, chains only, clones of clones, never-delivered inner views) were each given only the JSON record of one property and a scratch
 git worktree of /repo (nothing from /verif), and asked for a change that breaks the property while
 compiling and passing the 43 baseline tests, with a demonstration. Every change below was confirmed in a
 scratch worktree (`tools_ingest_mutant.sh`: patch applies, suite 43/43 with the change, demonstration
@@ -51,6 +51,21 @@ What the misses taught:
   C12e (Roc treats |x| < epsilon as zero) - the f64 scale clause now draws a = 2^k with k in -200..200 (2 in 5 cases) instead of -30..30;
   C10e (Ema::with_alpha clamps only upward moves when alpha > N+1) - C10 now includes Ema::with_alpha (weights j/8, j = 1..15) and
   Alma::new_custom among the linear views.
+* Round 6 (16 changes, 11 caught at once by the checks as they stood after round 5). The five others and what they led to:
+  C02f (Roc treats a subnormal base as zero) - `C02/<view>/tiny_unit/f64`: streams in units of 2^-150 and, for the views that neither
+  square nor take roots, 2^-1065 (subnormal inputs), zeros partly written as -0.0, and every f64 tolerance of C02 made relative to the
+  input unit (the old `max|x| + 1` floor made the 2^-30 / 2^-50 grids vacuous for value-like outputs);
+  C13f (LnReturn's "unset" sentinel widened to |x| < epsilon) - the f64 legs of LnReturn and Drawdown run half of their cases at units
+  2^-80, 2^-300, 2^-1040 and 2^300;
+  C03f (HLNormalizer seeds its extent with the raw input instead of its inner view's first output: invisible over Echo) -
+  `C03/<view>/chained/Q`: every C03 view over Sma / Max / Min / Cumulative(M), common suffix of K + M - 1 raw values;
+  C07d (MyRSI keeps running sums for N >= 100: residue after a volatile stretch leaves [-1, 1]) - C07's quick tier now draws windows
+  up to 128 (it stopped at 96; the thorough tier already reached it);
+  C18e (Alma appends a weight on every update while its inner view delivers nothing) - C18 measures every view over a leaf that
+  never delivers as well;
+  C12g (requested for C16, filed under C12: HLNormalizer rewritten around the mid-band; inside C16's three-decade envelope its extra
+  error is 1e-13, so it does not break C16, but it breaks C12's bit-exact offset clause) - `C12/affine/f64` for the views that only form
+  differences of inputs (HLNormalizer, NET, EFT), with offsets of up to 2^53 grid units so that any sum or midpoint of inputs must round.
 * C07b (WelfordOnline's flat-window reset keeps the residue of `mean`) is **not caught**: it needs a spike ~1e16 times the later level,
   and what it then breaks - Vsct's sharp bound, numerically (exact arithmetic unaffected) - is inside the listed finding
   `C07/range/Vsct/f*|range|exact_ok`; inside C16's three-decade envelope its effect (1e-10 of the range) is below the 1e-6 tolerance.
